@@ -742,6 +742,65 @@ def res_fd(c):
 PROC_MAGIC = "40864"
 
 
+def constructor_step(v, prop, runs, concrete):
+    """The handle constructors (ProcfsHandle::new, new_unmasked and the five explicit ones), recorded and replayed through
+    the model, in three privilege situations: root; root of a user namespace that does not own the pid namespace
+    (fsopen of procfs is refused, open_tree is not); uid 65534 (neither works).  Oracle: whoever *can* get a private
+    procfs instance from one of the explicit constructors gets one from new() / new_unmasked() too — not the host mount."""
+    import shutil
+    import tempfile
+    tmp = tempfile.mkdtemp(prefix="vh-new-", dir="/tmp")
+    os.chmod(tmp, 0o777)
+    envs = [("root", []), ("userns-root", ["unshare", "-Ur", "-m"]),
+            ("nobody", ["setpriv", "--reuid=65534", "--regid=65534", "--clear-groups"])]
+    stats = {"environments": [], "skipped": []}
+    try:
+        for name, prefix in envs:
+            out = os.path.join(tmp, name + ".txt")
+            rc, log = vlib.sh(prefix + [vlib.HARNESS_BIN, "proc-new", "--work", f"{tmp}/w-{name}", "--out", out], timeout=300)
+            if rc != 0 or not os.path.exists(out):
+                stats["skipped"].append(f"{name}: rc={rc} {log[-200:]}")
+                continue
+            r = Run.__new__(Run)
+            r.name = f"{prop}-new-{name}"
+            r.args = ["proc-new"]
+            r.tpath = os.path.join(CACHE, "runs", f"{r.name}.txt")
+            r.opath = os.path.join(CACHE, "runs", f"{r.name}.out")
+            os.makedirs(os.path.dirname(r.tpath), exist_ok=True)
+            shutil.copy(out, r.tpath)
+            r.cases = parse_cases(r.tpath)
+            r.verdicts, r.extra = run_model(r.tpath, r.opath)
+            r.by_id = {c.id: c for c in r.cases}
+            runs.append(r)
+            stats["environments"].append(name)
+            res = {}
+            for c in r.cases:
+                kv = dict(t.split("=", 1) for t in c.res[2:] if "=" in t) if c.res[:2] == ["ok", "handle"] else None
+                res[c.meta.get("kind")] = (c, kv)
+            host = (res.get("unsafe_open") or (None, None))[1]
+            private_possible = [k for k in ("fsopen_subset", "fsopen_full", "open_tree", "open_tree_recursive")
+                                if (res.get(k) or (None, None))[1] is not None]
+            for k in ("new", "new_unmasked"):
+                c, kv = res.get(k) or (None, None)
+                if c is None:
+                    continue
+                msg = None
+                if c.res[:1] == ["panic"]:
+                    msg = f"{k}() panicked"
+                elif kv is None and host is not None:
+                    msg = f"{k}() failed although the host /proc can be opened: {' '.join(c.res[:4])}"
+                elif kv is not None and host is not None and private_possible and kv.get("mnt") == host.get("mnt"):
+                    msg = (f"{k}() returned a handle on the host /proc mount (mount id {kv.get('mnt')}) although a private procfs "
+                           f"instance can be created here ({', '.join(private_possible)} succeed): over-mounts made later are visible to it")
+                if msg:
+                    facts = {"kind": "oracle", "oracle": msg, "case": c.id, "op": "proc_new", "env": name, "constructor": k}
+                    v.fail(facts, case_replay(c, f"[{name}] " + msg, {"environment": " ".join(prefix) or "root"}))
+                    concrete.add((r.name, c.id))
+    finally:
+        shutil.rmtree(tmp, ignore_errors=True)
+    return stats
+
+
 def check_C06(v, tier, seed):
     if tier == "thorough":
         import random
@@ -823,6 +882,7 @@ def check_C06(v, tier, seed):
                 facts.update({"kind": "oracle", "oracle": msg})
                 v.fail(facts, case_replay(c, msg))
                 concrete.add((r.name, c.id))
+    ctor = constructor_step(v, "C06", runs, concrete)
     broken = generic_tie(v, runs, concrete)
     cov = coverage_of(runs, nontrivial=lambda c: c.meta.get("mask") not in (None, "0"),
                       key=lambda c: (c.meta.get("mask"), c.meta.get("handle"), c.cfg.get("hemu"), tuple(c.op),
@@ -834,6 +894,7 @@ def check_C06(v, tier, seed):
                    "over-mounted; non-trivial = at least one over-mount present")
     cov["tie_mismatches"] = broken
     cov["layouts"] = len(masks)
+    cov["handle_constructors"] = ctor
     cov.update(stats)
     return cov
 
